@@ -146,6 +146,9 @@ def run_layout(cfg):
         c.assume(low >= 0, low < high, high <= (rate / 2 + 1 if strip else rate / 2))
         if strip:
             c.assume(high > rate / 2)
+        # Gabor constructor: square roots of expressions that are not non-negative by construction (support half-widths);
+        # outside its domain np.sqrt yields NaN, which the following int() rejects
+        symex.SQRT_DOMAIN = (cls == 'GaborFilterBank')
         try:
             b = fc.construct(ns, cls, SReal(low), SReal(high), rate, nf)
         except ValueError as e:
@@ -155,6 +158,8 @@ def run_layout(cfg):
         except Exception as e:
             symex.guard(e)
             return ('exception', '%s: %s' % (type(e).__name__, e))
+        finally:
+            symex.SQRT_DOMAIN = False
         if strip:
             centers = [rv(v) for v in b.centers_hz]
             sup = [(rv(l), rv(h)) for l, h in b.supports_hz]
@@ -437,6 +442,8 @@ def replay(w):
             # floating-point effect (e.g. the length of a float np.arange) strikes
             cands = [(max(0.0, w.get('low_hz', 20.0)), min(8001.0, max(w.get('high_hz', 4000.0), 100.0)))]
             cands += [(lo_, hi_) for lo_ in (20.0, 0.0, 64.0, 133.3) for hi_ in (4000.0, 3800.0, 8000.0, 7600.0, 6855.5)]
+            if str(w.get('what', '')).startswith('exception'):
+                cands += [(1000.0, 1001.0), (60.0, 60.5), (7000.0, 7003.0)]       # very narrow bands (filters a fraction of a hertz wide)
             for (lo, hi), sc in itertools.product(cands, (scales.MelScaling(), scales.BarkScaling(), scales.LinearScaling(0.0))):
                 if lo >= hi:
                     lo, hi = 20.0, 4000.0
